@@ -232,6 +232,23 @@ def directed_doc(rng):
     g.add_stmt("x = fc.a", "fc", "must", "test_directed", 4)
     g.emit("    pass")
     g.emit("")
+    # the closing parenthesis alone on its line (the parameter edit has to look back for the comma decision)
+    fline = g.line_no()
+    g.emit("def test_close_only(fb")
+    g.emit("):")
+    g.funcs.append({"name": "test_close_only", "line0": fline, "shape": "multi_close_only", "kind": "test", "declared": ["fb"], "simple": True})
+    g.add_stmt("y = fa.b", "fa", "must", "test_close_only", 4)
+    g.emit("    pass")
+    g.emit("")
+    fline = g.line_no()
+    g.emit("def test_close_only2(")
+    g.emit("    fb,")
+    g.emit("    fc")
+    g.emit("):")
+    g.funcs.append({"name": "test_close_only2", "line0": fline, "shape": "multi", "kind": "test", "declared": ["fb", "fc"], "simple": True})
+    g.add_stmt("z = call(fa)", "fa", "must", "test_close_only2", 4)
+    g.emit("    pass")
+    g.emit("")
     return g
 
 
@@ -378,9 +395,9 @@ def run(ctx):
                 g2.funcs = [dict(fn_, line0=fn_["line0"] + 1) for fn_ in g.funcs]
                 judge_doc(ctx, srv, f, g2, "\n" + text[:-1], conf, True)
                 ctx.nontrivial(("same_length_shifted_lines",))
-            if i % 5 == 1 and g.sites:
+            if i % 3 == 1 and any(s_["label"] == "must" for s_ in g.sites):
                 # two versions back to back: a large paste that also hides one use, then the text again
-                victim = g.sites[0]
+                victim = next(s_ for s_ in g.sites if s_["label"] == "must")
                 lines2 = list(g.lines)
                 lines2[victim["line0"]] = lines2[victim["line0"]].replace(victim["name"], "x", 1)
                 big = "\n".join(lines2) + "\n" + "".join(f"def helper_pad_{k}(a, b):\n    c = [a, b]\n    return c\n\n" for k in range(3000))
